@@ -243,6 +243,14 @@ class ChangeScenario(Scenario):
         if self.params.get('storage') == 'status':
             s.persistence.progress_storage = kopf.StatusProgressStorage()
             s.persistence.diffbase_storage = kopf.StatusDiffBaseStorage()
+        elif str(self.params.get('storage', '')).startswith('multi'):
+            # the documented transitional configuration: every record kept in the annotations AND in the status stanza
+            prog = [kopf.AnnotationsProgressStorage(), kopf.StatusProgressStorage()]
+            base = [kopf.AnnotationsDiffBaseStorage(), kopf.StatusDiffBaseStorage()]
+            if self.params['storage'] == 'multi-sa':
+                prog.reverse(); base.reverse()
+            s.persistence.progress_storage = kopf.MultiProgressStorage(prog)
+            s.persistence.diffbase_storage = kopf.MultiDiffBaseStorage(base)
         return s
 
     def start_operator(self, env: Env) -> Pipeline:
